@@ -270,9 +270,56 @@ def check_none():
     return out
 
 
+def check_subclass():
+    """Objects of a user's subclass of a message class ARE messages of that class: they copy, freeze and thaw like it."""
+    from mido.frozen import FrozenMessage, FrozenMetaMessage, FrozenUnknownMetaMessage, freeze_message, thaw_message
+
+    class Note(mido.Message):
+        def is_loud(self):
+            return self.velocity > 100
+
+    class Lyric(mido.MetaMessage):
+        pass
+
+    class Vendor(mido.UnknownMetaMessage):
+        pass
+
+    class Key(FrozenMessage):
+        pass
+    out = []
+    for obj, frozen_cls, plain_cls in ((Note('note_on', note=61, velocity=120, time=3), FrozenMessage, mido.Message),
+                                       (Lyric('lyrics', text='la', time=2), FrozenMetaMessage, mido.MetaMessage),
+                                       (Vendor(0x60, data=(1, 2), time=1), FrozenUnknownMetaMessage, mido.UnknownMetaMessage)):
+        name = type(obj).__name__
+        try:
+            fz = freeze_message(obj)
+            if not isinstance(fz, frozen_cls) or not (fz == obj) or hash(fz) != hash(freeze_message(obj.copy())):
+                out.append(fail('subclass-freeze', f'freeze_message({name} instance) -> {fz!r} ({type(fz).__name__})', cls=name))
+            th = thaw_message(fz)
+            if not isinstance(th, plain_cls) or isinstance(th, frozen_cls) or not (th == obj):
+                out.append(fail('subclass-thaw', f'thaw(freeze({name} instance)) -> {th!r} ({type(th).__name__})', cls=name))
+            th2 = thaw_message(obj)
+            if th2 is obj or not (th2 == obj) or not isinstance(th2, plain_cls):
+                out.append(fail('subclass-thaw', f'thaw_message({name} instance) -> {th2!r}', cls=name))
+            cp = obj.copy(time=9)
+            if not isinstance(cp, plain_cls) or cp.time != 9 or obj.time == 9:
+                out.append(fail('subclass-copy', f'{name}.copy(time=9) -> {cp!r}', cls=name))
+        except Exception as exc:  # noqa: BLE001
+            out.append(fail('subclass-raises', f'{name}: {exc!r}', exc=exc_sig(exc), cls=name))
+    try:
+        k = Key('note_on', note=5)
+        if freeze_message(k) is not k or not (thaw_message(k) == k) or isinstance(thaw_message(k), FrozenMessage):
+            out.append(fail('subclass-freeze', 'a subclass of FrozenMessage is not treated as frozen', cls='Key'))
+    except Exception as exc:  # noqa: BLE001
+        out.append(fail('subclass-raises', f'Key: {exc!r}', exc=exc_sig(exc), cls='Key'))
+    return out
+
+
 def run_case(case):
     if case.get('kind') == 'none':
         return check_none()
+    if case.get('kind') == 'subclass':
+        return check_subclass()
     return check_case(case)
 
 
@@ -382,6 +429,7 @@ def main(ctx):
     n = 6400 if ctx.tier == 'quick' else 80000
     w = 8 if ctx.tier == 'quick' else 16
     ctx.check({'kind': 'none'})
+    ctx.check({'kind': 'subclass'})
     ctx.pmap('hyp_shard', [(k, n // w) for k in range(w)])
     # every type once with defaults and once with edge values, all routes
     for t in R.ALL_TYPES:
